@@ -63,14 +63,14 @@ type Opts struct {
 	MinReplicas        int
 	MaxReplicas        int
 	// FirstCeremonyIn: simulated time from start to the first validation; 0 = far future (no epoch in run)
-	CeremonySoon   bool
-	RealEpochDays  bool // ValidationInterval = 0: use the protocol's epoch length (needs large networks)
-	BigNetworkBias int  // 1-in-N runs draw MaxIdent towards the upper bound
-	Zones          bool // give replicas different time zones
-	Skew           bool // give replicas clock skew
-	Contracts      bool
-	Versions       []config.ConsensusVerson // allowed consensus versions (default all)
-	NoShuffleSeeds bool
+	CeremonySoon    bool
+	RealEpochDays   bool // ValidationInterval = 0: use the protocol's epoch length (needs large networks)
+	BigNetworkBias  int  // 1-in-N runs draw MaxIdent towards the upper bound
+	Zones           bool // give replicas different time zones
+	Skew            bool // give replicas clock skew
+	Contracts       bool
+	Versions        []config.ConsensusVerson // allowed consensus versions (default all)
+	NoShuffleSeeds  bool
 	MostlyValidated bool // genesis identities are Verified/Human/Newbie with few exceptions
 	// BulkAccounts: this many further plain accounts in the genesis allocation (nobody holds their keys): large state
 	// trees, snapshots of several archive blocks
@@ -91,6 +91,8 @@ type Scn struct {
 	// PassBias: 0 = outcomes drawn uniformly over the score tables, 1 = most identities pass, 2 = nearly all pass
 	PassBias int
 	Opts     Opts
+	// RealCeremony: replicas run the real ValidationCeremony instead of the scripted epoch function
+	RealCeremony   bool
 	Contracts      []*Contract
 	pendingDeploys map[common.Hash]string
 	// statistics
@@ -228,12 +230,17 @@ func New(r *vfw.Run, o Opts) *Scn {
 
 // AddNode creates and starts a replica holding the key of identity idx on the given disk (nil = fresh).
 func (s *Scn) AddNode(idx int, disk *simdisk.Disk) *simnode.Node {
+	return s.AddNodeFor(s.Ids[idx], disk)
+}
+
+// AddNodeFor creates and starts a replica holding id's key (id need not be a genesis identity).
+func (s *Scn) AddNodeFor(id *Ident, disk *simdisk.Disk) *simnode.Node {
 	if disk == nil {
 		disk = simdisk.New()
 	}
-	id := s.Ids[idx]
 	n := simnode.New(s.W, len(s.Nodes), id.Key, s.Cfg, disk, s.Net.NewStore(), s.R.Dir)
 	n.Epoch = s.ScriptedEpoch
+	n.WithCeremony = s.RealCeremony
 	t := s.T
 	if s.Opts.Zones {
 		n.Ctx.Zone = zones[t.Choose("node.zone", len(zones))]
@@ -269,6 +276,9 @@ func (s *Scn) Close() {
 }
 
 func (s *Scn) IdentOf(a common.Address) *Ident { return s.byAddr[a] }
+
+// RegisterIdent makes an identity created by a check known to the scenario (signing, lookups).
+func (s *Scn) RegisterIdent(id *Ident) { s.byAddr[id.Addr] = id }
 
 func (s *Scn) AllActors() []*Ident { return append(append([]*Ident{}, s.Ids...), s.Extra...) }
 
@@ -417,7 +427,7 @@ func (s *Scn) ScriptedEpoch(n *simnode.Node, height uint64, app *appstate.AppSta
 			other := vals[int((h>>48)%uint64(len(vals)))]
 			if other.v.State.NewbieOrBetter() && other.addr != x.addr {
 				sr.GoodInviters[x.addr] = &types.InviterValidationResult{
-					SuccessfulInvites: []*types.SuccessfulInvite{{Age: uint16(1 + (h>>36)%3), TxHash: common.Hash{byte(h >> 40)}, EpochHeight: uint32((h >> 44) % 50), Penalized: (h>>52)%4 == 0, Address: other.addr}},
+					SuccessfulInvites:   []*types.SuccessfulInvite{{Age: uint16(1 + (h>>36)%3), TxHash: common.Hash{byte(h >> 40)}, EpochHeight: uint32((h >> 44) % 50), Penalized: (h>>52)%4 == 0, Address: other.addr}},
 					PayInvitationReward: true, NewIdentityState: uint8(x.v.State)}
 			}
 		}
